@@ -149,7 +149,23 @@ def generate(rng, tier):
             else:
                 rec.append(rng.choice(NAMES_S))
         recs.append(rec)
+    struct = None
+    r_struct = rng.random()
+    if r_struct < 0.05 and not odd:
+        # the record structure is not described at all: plain tuples, the package names the fields col_1 ...
+        # (no records: its placeholder column)
+        struct = "nofields"
+        fields = [f"col_{i + 1}" for i in range(k)] if recs else [DUMMY_FIELD]
+        has_enum = False
+    elif r_struct < 0.12:
+        # ... described by RecordField objects (value paths into dict records, or positions)
+        struct = rng.choice(["recfields", "recfields_pos"])
+    elif r_struct < 0.17:
+        # ... or taken from an enhanced format ("name<-path") the table is created with
+        struct = "enhanced"
     table = {"kind": "table", "fields": fields, "records": recs}
+    if struct:
+        table["struct"] = struct
     if has_enum:
         table["types"] = {"status": 0}
     if rng.random() < 0.7:
@@ -171,7 +187,12 @@ def generate(rng, tier):
         plain = [f for f in fields if f != "status"]
         if plain:
             table["wtypes"] = {rng.choice(plain): [rng.randint(0, 4), rng.randint(4, 9)] + (["center"] if rng.random() < 0.4 else [])}
-    if rng.random() < 0.25 and recs and not odd:
+    if struct == "nofields":
+        for key in ("titles", "wtypes"):
+            table.pop(key, None)
+    if struct:
+        pass
+    elif rng.random() < 0.25 and recs and not odd:
         table["nt"] = True
     elif rng.random() < 0.2:
         # the names arrive as a tuple, or as members of the caller's (str, Enum) class
@@ -215,7 +236,7 @@ def generate(rng, tier):
         elif r < 0.89:
             ops.append({"op": "save_fmt"})
         elif r < 0.955:
-            ops.append({"op": "remove_columns", "names": rng.sample(fields, rng.randint(1, 2)),
+            ops.append({"op": "remove_columns", "names": rng.sample(fields, min(len(fields), rng.randint(1, 2))),
                         "via_fmt_obj": rng.random() < 0.4, "breaks": rng.random() < 0.4})
         elif r < 0.962:
             ops.append({"op": "set_fmt_invalid", "fmt": rng.choice([
@@ -284,6 +305,7 @@ class World:
         self.conf = color.ColorsConfig({"TABLE": {"BORDER": "CYAN"}, "RECORD.NUMBER": "YELLOW:bold"})
         self.enums = {0: rw.ro.build_enum(trace["enums"][0])}
         self.wtypes = {}
+        self.recfields = None
         self.spec = trace["table"]
         self.ctxs = []
         self.tasks = {}
@@ -319,30 +341,94 @@ def _subset(recs, keep):
     return recs
 
 
-def build_table(w, fmt=None, fmt_obj=None, with_limits=True, ctx=None):
+DUMMY_FIELD = "-                              -"      # the package's placeholder column of a table without anything
+
+
+def _value_paths(spec):
+    """value paths of the fields for tables whose records are not flat tuples"""
+    if spec.get("struct") == "recfields_pos":
+        return [i if i % 2 else str(i) for i in range(len(spec["fields"]))]
+    return [f"[k{i}]" if i % 2 == 0 else f"[sub].[k{i}]" for i in range(len(spec["fields"]))]
+
+
+def _struct_records(spec, recs):
+    if spec.get("struct") in ("recfields", "enhanced"):
+        out = []
+        for r in recs:
+            d = {"sub": {}}
+            for i, v in enumerate(r):
+                (d if i % 2 == 0 else d["sub"])[f"k{i}"] = v
+            out.append(d)
+        return out
+    return recs
+
+
+def _types_and_titles(w, spec):
+    ft = {}
+    if spec.get("types"):
+        ft.update({n: w.enums[i] for n, i in spec["types"].items()})
+    for n, args in (spec.get("wtypes") or {}).items():
+        ft.setdefault(n, w.wtypes.setdefault(n, rw.ro.width_field_type(args)))
+    return ft, dict(spec.get("titles") or {})
+
+
+def _record_fields(w, spec):
+    """the caller's list of RecordField objects (made once, used for every table of the run)"""
+    if w.recfields is None:
+        from ak.ppobj import RecordField, ReprStructure
+        ft, titles = _types_and_titles(w, spec)
+        w.recfields = [RecordField(n, ft.get(n, ReprStructure._DFLT_FIELD_TYPE), path, titles.get(n))
+                       for n, path in zip(spec["fields"], _value_paths(spec))]
+    return w.recfields
+
+
+def build_table(w, fmt=None, fmt_obj=None, with_limits=True, ctx=None, initial=False):
     spec = w.spec
-    recs = rw.ro._records(spec)
+    struct = spec.get("struct")
+    recs = _struct_records(spec, rw.ro._records(spec))
     if ctx is not None:
         recs = _subset(recs, ctx.keep)
     kw = {}
+    assign = None
     if fmt_obj is None:
-        if not spec.get("nt"):
+        if struct == "nofields":
+            if initial:
+                # created without any description; the format (if any) is assigned afterwards
+                assign = fmt
+                fmt = None
+            elif spec["fields"] != [DUMMY_FIELD]:
+                kw["fields"] = list(spec["fields"])
+        elif struct in ("recfields", "recfields_pos") or (struct == "enhanced" and not initial):
+            kw["fields"] = list(_record_fields(w, spec))
+        elif struct == "enhanced":
+            assign = fmt
+            fmt = ", ".join(f"{n}<-{path}" for n, path in zip(spec["fields"], _value_paths(spec)))
+            ft, titles = _types_and_titles(w, spec)
+            if ft:
+                kw["fields_types"] = ft
+            if titles:
+                kw["fields_titles"] = titles
+        elif not spec.get("nt"):
             kw["fields"] = rw.ro.fields_arg(spec)
-        if spec.get("types"):
-            kw["fields_types"] = {n: w.enums[i] for n, i in spec["types"].items()}
-        if spec.get("wtypes"):
-            ft = kw.setdefault("fields_types", {})
-            for n, args in spec["wtypes"].items():
-                ft.setdefault(n, w.wtypes.setdefault(n, rw.ro.width_field_type(args)))
-        if spec.get("titles"):
-            kw["fields_titles"] = dict(spec["titles"])
+        if struct is None:
+            if spec.get("types"):
+                kw["fields_types"] = {n: w.enums[i] for n, i in spec["types"].items()}
+            if spec.get("wtypes"):
+                ft = kw.setdefault("fields_types", {})
+                for n, args in spec["wtypes"].items():
+                    ft.setdefault(n, w.wtypes.setdefault(n, rw.ro.width_field_type(args)))
+            if spec.get("titles"):
+                kw["fields_titles"] = dict(spec["titles"])
         kw["fmt"] = fmt
     else:
         kw["fmt_obj"] = fmt_obj
     limits = spec.get("limits") if (ctx is None or ctx.limits is _SPEC) else ctx.limits
     if with_limits and limits is not None:
         kw["limits"] = tuple(limits) if len(recs) % 2 else list(limits)
-    return w.PPTable(recs, header=spec.get("header"), footer=spec.get("footer"), **kw)
+    table = w.PPTable(recs, header=spec.get("header"), footer=spec.get("footer"), **kw)
+    if assign is not None:
+        table.set_fmt(assign)
+    return table
 
 
 def render(w, table, no_color=False):
@@ -439,7 +525,9 @@ def execute(trace, rng):
     try:
         try:
             w.ctxs.append(Ctx())
-            w.ctxs[0].table = build_table(w, w.spec.get("fmt"))
+            w.ctxs[0].table = build_table(w, w.spec.get("fmt"), initial=True)
+            if w.spec.get("struct"):
+                w.stats["struct_" + w.spec["struct"]] = 1
         except Exception as e:
             # a format the constructor rejects is an input matter (C12), not a round-trip matter
             raise _Skip(repr(e))
